@@ -65,7 +65,7 @@ const GenesisKeyHex = "CC38546E9E659D15E6B4893F0AB32A06D103931A8230B0BDE71459D2B
 func CfgString(edit func(string) string) string {
 	s := types.GetDefaultCfgstring()
 	s = strings.Replace(s, `driver="leveldb"`, `driver="vdb"`, -1)
-	s = strings.Replace(s, "waitTxMs=1\n", "waitTxMs=1000\n", 1)
+	s = strings.Replace(s, "waitTxMs=1\n", "waitTxMs=100000000\n", 1)
 	s = strings.Replace(s, `loglevel = "debug"`, `loglevel = "crit"`, 1)
 	s = strings.Replace(s, `logConsoleLevel = "info"`, `logConsoleLevel = "crit"`, 1)
 	if edit != nil {
